@@ -569,6 +569,8 @@ impl MempoolInner {
                             .add(promotion_tx, current_nonce, &current_balances)
                     {
                         self.contained_txs.remove(&tx_id);
+                        self.comet_bft_removal_cache
+                            .add(tx_id, RemovalReason::InternalError);
                         self.metrics.increment_internal_logic_error();
                         error!(
                             address = %telemetry::display::base64(&address_bytes),
@@ -586,6 +588,8 @@ impl MempoolInner {
                             .add(demotion_tx, current_nonce, &current_balances)
                     {
                         self.contained_txs.remove(&tx_id);
+                        self.comet_bft_removal_cache
+                            .add(tx_id, RemovalReason::InternalError);
                         self.metrics.increment_internal_logic_error();
                         error!(
                             address = %telemetry::display::base64(&address_bytes),
